@@ -315,9 +315,17 @@ pub fn apply_logical(kind: &'static str, m: &mut Message, cx: &FaultCtx, t: &mut
                 component = "header";
             }
             "hdr-add-new" => {
-                let pool = ["x-forwarded-for", "via", "x-request-id", "x-amz-injected", "x-custom", "etag", "x-cube", "content-md5"];
+                let mut pool = vec!["x-forwarded-for", "via", "x-request-id", "x-amz-injected", "x-custom", "etag", "x-cube", "content-md5"];
+                if a.carrier == Carrier::Query {
+                    // with the query-string carrier these headers are not consulted for authentication
+                    pool.extend(["x-amz-security-token", "x-amz-date", "date", "x-amz-security-token"]);
+                }
                 let name = pool[t.below(pool.len())].to_string();
-                let v = gen::gen_header_value(t);
+                let v = match name.as_str() {
+                    "x-amz-security-token" => b"other-token".to_vec(),
+                    "x-amz-date" | "date" => refm::compact_utc(a.instant_ns + 3_600 * refm::NS).into_bytes(),
+                    _ => gen::gen_header_value(t),
+                };
                 let pos = t.below(l.headers.len() + 1);
                 note = name.clone();
                 l.headers.insert(pos, (name, v));
